@@ -317,6 +317,7 @@ def judge(spec, scenario, history):
     ops = oracle.all_ops(scenario)
     by = oracle.events_by_op(history, ops)
     probes = {}
+    pending, seen_pending = [], set()
     for oid, op in ops.items():
         evs = by.get(oid, [])
         if not any(e["k"] == "invoke" for e in evs):
@@ -332,11 +333,21 @@ def judge(spec, scenario, history):
         sg = next((e for e in evs if e["k"] == "signature"), None)
         if sg is not None:
             paths = flattened_paths(m)
+            got = sg["params"]
             if not m["input"].startswith("." + spec["package"] + "."):
                 _bump(probes, "foreign_request")
-                paths = [p for p in paths if _leaf_fd(desc, p)[1].type != FD.TYPE_MESSAGE]
+                kept = [p for p in paths if _leaf_fd(desc, p)[1].type != FD.TYPE_MESSAGE]
+                if len(kept) != len(paths) and len(got) == len(kept):
+                    # known finding (open): the message-typed fields of a dependency-package request named by the
+                    # method_signature are not offered at all; everything else about the call is still judged
+                    dropped = [p for p in paths if p not in kept]
+                    if (op["id"], "dropped") not in seen_pending:
+                        seen_pending.add((op["id"], "dropped"))
+                        pending.append({"rule": "foreign_message_param_dropped", "op": op["id"], "method": path,
+                                        "msg": f"client method offers flattened parameters {got}; the method_signature(s) declare {paths}: "
+                                               f"the message-typed field(s) {dropped} of the dependency-package request {m['input']} are not offered"})
+                    paths = kept
             want = [p.split(".")[-1] for p in paths]
-            got = sg["params"]
             _bump(probes, "signature_order_checked")
             if len(got) != len(want) or any(g not in (w, w + "_") for g, w in zip(got, want)):
                 return V("signature_params", f"client method offers flattened parameters {got}; the method_signature(s) declare "
@@ -392,7 +403,7 @@ def judge(spec, scenario, history):
         if got != exp:
             return V("kwargs_request_mismatch" if op["form"] == "kwargs" else "request_mismatch",
                      f"{op['form']} call sent {str(got)[:300]!r}; the equivalent request is {str(exp)[:300]!r}")
-    return [], probes
+    return pending[:1], probes
 
 
 def shape(scenario, history):
